@@ -31,10 +31,12 @@ Definition b_init : bstate := mkB [] false false false false.
 Section Scan.
   Variable openers : list N.
   Variable pairs : list (N * N).       (* closer, its opener *)
+  Variable terms : list N.             (* the characters at which the scanner leaves a line comment *)
   Variable max_depth : nat.
   Variable depth_strict : bool.        (* `stack.len() > MAX` (true) or `>=` *)
 
   Definition is_opener (c : N) : bool := existsb (N.eqb c) openers.
+  Definition is_term (c : N) : bool := existsb (N.eqb c) terms.
   Definition opener_of (c : N) : option N :=
     match find (fun p => fst p =? c) pairs with Some p => Some (snd p) | None => None end.
   Definition over (n : nat) : bool :=
@@ -56,7 +58,7 @@ Section Scan.
   (* one iteration of `for ch in input.chars()`, in the order of the source *)
   Definition bstep (s : bstate) (ch : N) : option bstate :=
     if b_in_comment s then
-      Some (if ch =? c_nl then mkB (b_stack s) (b_in_string s) (b_escaped s) false (b_prev_slash s) else s)
+      Some (if is_term ch then mkB (b_stack s) (b_in_string s) (b_escaped s) false (b_prev_slash s) else s)
     else if b_in_string s then
       (* prev_slash = false; *)
       if b_escaped s then Some (mkB (b_stack s) true false false false)
@@ -81,11 +83,11 @@ Section Scan.
     end.
 End Scan.
 
-Definition validate_parser_budget (openers : list N) (pairs : list (N * N))
+Definition validate_parser_budget (openers : list N) (pairs : list (N * N)) (terms : list N)
            (max_len : N) (len_strict : bool) (max_depth : nat) (depth_strict : bool)
            (cs : list N) : bres :=
   if (if len_strict then max_len <? input_len cs else max_len <=? input_len cs) then BTooLong
-  else match bscan openers pairs max_depth depth_strict b_init cs with
+  else match bscan openers pairs terms max_depth depth_strict b_init cs with
        | Some _ => BOk
        | None => BTooDeep
        end.
@@ -99,6 +101,7 @@ Inductive lmode := MCode | MStr | MStrEsc | MComment.
 Section Spec.
   Variable openers : list N.
   Variable pairs : list (N * N).
+  Variable terms : list N.             (* the characters at which the PARSER's trivia skipper ends a line comment *)
 
   (* brackets without any limit *)
   Definition bracket_free (st : list N) (ch : N) : list N :=
@@ -117,7 +120,7 @@ Section Spec.
     | [] => (m, st)
     | c :: rest =>
       match m with
-      | MComment => lex_end (if c =? c_nl then MCode else MComment) st rest
+      | MComment => lex_end (if is_term terms c then MCode else MComment) st rest
       | MStrEsc => lex_end MStr st rest
       | MStr => lex_end (if c =? c_bslash then MStrEsc else if c =? c_quote then MCode else MStr) st rest
       | MCode =>
